@@ -4,7 +4,7 @@ import hashlib
 import json
 import os
 
-from .boot import VERIF_DIR
+from .boot import VERIF_DIR, OUT_DIR
 
 
 def canon(obj):
@@ -132,7 +132,7 @@ def write_evidence(mod, tier, seed, merged, wall_s, violations, shards=1):
       'wall_s': round(float(wall_s), 3),
       'violations': int(violations),
   }
-  d = os.path.join(VERIF_DIR, 'evidence')
+  d = os.path.join(OUT_DIR, 'evidence')
   os.makedirs(d, exist_ok=True)
   path = os.path.join(d, '%s.json' % mod.ID)
   tmp = path + '.tmp'
